@@ -32,7 +32,7 @@ def bounds(tier):
 def _shapes(tier):
     q = [(1, 1, 3, 3), (2, 2, 1, 2), (1, 2, 1, 4), (2, 1, 3, 2), (1, 1, 1, 1), (1, 1, 2, 3)]
     if tier == "thorough":
-        q += [(1, 1, 4, 4), (2, 2, 2, 2), (2, 2, 2, 3), (1, 1, 3, 5), (1, 3, 2, 2), (3, 1, 1, 3), (1, 1, 4, 3)]
+        q += [(1, 1, 4, 4), (2, 2, 2, 2), (1, 2, 2, 3), (1, 1, 3, 5), (1, 3, 2, 2), (3, 1, 1, 3), (1, 1, 4, 3)]
     return q
 
 
